@@ -962,6 +962,7 @@ def prepared_cases(rng, n):
         shutil.rmtree(root, ignore_errors=True)
 
 
+
 def run(ctx):
     n_edit, n_fresh, n_tid = (40, 16, 40) if ctx.quick() else (260, 100, 400)
     n_zero = 8 if ctx.quick() else 40
